@@ -133,4 +133,18 @@ theorem recovered_tree (C : Crypto) (hC : HashWF C) (hS : SignWF C) (hTw : TreeW
 
 end Model
 
+/-- **replicas hold the reference tree too**: in every replica state reached from creation by first contact, honest
+    exchanges, reopens and crashes (`ReplicaCrash.Reach`), the roots are the reference roots of the replica's length, and
+    every node a lookup finds — in the unflushed map or in the tree store — is the reference node of its position
+    (index, size, hash), inside the replica's length -/
+theorem replica_tree_is_reference (C : Crypto) (hC : TreeStore.HashWF C) (hT : TreeStore.TreeWF C) (bs : Array Bytes) (pk : Bytes) (fork : Nat)
+    (s : Core × Disk) (h : ReplicaCrash.Reach C bs pk fork s) :
+    s.1.tree.roots = Growth.rootsAt C bs s.1.tree.length ∧ s.1.tree.length ≤ bs.size
+      ∧ ∀ i n, s.1.tree.node? s.2.tree i = some n →
+          ∃ d o, i = Flat.index d o ∧ n = RefTree.nodeAt C bs d o ∧ (o + 1) * 2 ^ d ≤ s.1.tree.length := by
+  obtain ⟨m, held, hrp, _, _⟩ := ReplicaCrash.reach_rp C hC hT bs pk fork s h
+  have hl : s.1.tree.length = m := hrp.rep.closed.sparse.length
+  rw [hl]
+  exact ⟨hrp.rep.roots, hrp.rep.le, hrp.rep.closed.sparse.sound⟩
+
 end HC.C05
